@@ -60,19 +60,24 @@ def gen_case(rng, spec):
         maxlen -= 1
     if R in ("Float", "Real", "Q") and rng.random() < 0.2:
         g = dict(g, rules=[[(-w if rng.random() < 0.35 else w), h, b] for w, h, b in g["rules"]])  # a field: negative weights
-        # parallel rules (same head and body) whose weights cancel EXACTLY leave a rule that is structurally present
-        # with total weight zero; whether such a rule "is" a unary rule / cycle is outside what C06/C07 state
-        tot = {}
-        for w, h, b in g["rules"]:
-            tot[(h, tuple(b))] = tot.get((h, tuple(b)), 0) + w
-        if any(v == 0 for v in tot.values()):
-            g = dict(g, rules=[[abs(w), h, b] for w, h, b in g["rules"]])
     if R in ("Float", "Real", "Q", "MaxTimes") and rng.random() < 0.15:
         from fractions import Fraction as Fr
 
         # a few tiny (but non-zero) rule weights: nothing may be dropped "for robustness" by a transformation
         sc = Fr(1, 2 ** rng.choice([45, 60]))
         g = dict(g, rules=[[(w * sc if rng.random() < 0.3 else w), h, b] for w, h, b in g["rules"]])
+    if any(w < 0 for w, _, _ in g["rules"]):
+        # parallel rules (same head and body) whose weights cancel leave rules that are structurally present with
+        # total weight zero; whether such a rule "is" a unary rule / cycle is outside what C06/C07 state.  The
+        # cancellation may be exact, or happen only in floating point (-3/64 - 2**-65 + 3/64 is 0.0 whatever the
+        # order of the first two), so the total has to be well conditioned, not just non-zero.
+        tot, big = {}, {}
+        for w, h, b in g["rules"]:
+            k = (h, tuple(b))
+            tot[k] = tot.get(k, 0) + w
+            big[k] = max(big.get(k, 0), abs(w))
+        if any(abs(v) * 2**20 < big[k] for k, v in tot.items()):
+            g = dict(g, rules=[[abs(w), h, b] for w, h, b in g["rules"]])
     return {
         "g": {k: g[k] for k in ("S", "V", "rules")},
         "R": R,
@@ -115,8 +120,22 @@ def shape_violations(name, cfg_in, out):
                 break
     if base == "unarycycleremove" or name.startswith("nullaryremove()."):
         edges = {}
+        # Over a field parallel unary rules may cancel (exactly, or by floating-point absorption, also among rules
+        # *derived* by an earlier transformation): the library's unary graph then has no such edge, and whether the
+        # rules still "are" a unary step is outside what C06/C07 state -- such an edge is not counted.
+        tot, big = {}, {}
+        for r in out.rules:
+            if len(r.body) == 1 and nt(r.body[0]):
+                try:
+                    w = float(getattr(r.w, "score", r.w))
+                except (TypeError, ValueError):
+                    continue
+                k = (r.head, r.body[0])
+                tot[k] = tot.get(k, 0.0) + w
+                big[k] = max(big.get(k, 0.0), abs(w))
+        cancelled = {k for k, v in tot.items() if abs(v) * 2**20 < big[k]}
         for h, b in rules:
-            if len(b) == 1 and nt(b[0]):
+            if len(b) == 1 and nt(b[0]) and (h, b[0]) not in cancelled:
                 edges.setdefault(h, set()).add(b[0])
         # cycle detection by DFS colours
         col = {}
